@@ -59,7 +59,7 @@ func newC13() pbt.Machine[blockOp] {
 		panic(err)
 	}
 	m := &c13Machine{n: n}
-	m.h = &hist{n: n, w: newWorld(), rich: 4, dueBias: true}
+	m.h = &hist{n: n, w: newWorld(), rich: 4, dueBias: true, maxIdle: 60}
 	return m
 }
 
@@ -109,6 +109,15 @@ func (m *c13Machine) dueNext() dueSet {
 }
 
 func (m *c13Machine) Apply(op blockOp) error {
+	for _, b := range expandIdle(op) {
+		if err := m.applyOne(b); err != nil {
+			return err
+		}
+	}
+	return nil
+}
+
+func (m *c13Machine) applyOne(op blockOp) error {
 	due := m.dueNext()
 	resp, err := runBlock(m.n, op)
 	if err != nil {
@@ -170,10 +179,15 @@ func (m *c13Machine) Apply(op blockOp) error {
 	return m.hygiene()
 }
 
-func (m *c13Machine) hygiene() error {
-	ctx := m.n.Ctx()
-	h := m.n.Height
-	k := m.n.K
+func (m *c13Machine) hygiene() error { return queueHygiene(m.n) }
+
+// queueHygiene scans the time-bound queues of htlc, farm, service and random on the node's current state against
+// the objects they refer to (the per-block clauses of C13 that need no knowledge of the block's events).
+func queueHygiene(n *chain.Node) error {
+	ctx := n.Ctx()
+	h := n.Height
+	k := n.K
+	m := struct{ n *chain.Node }{n}
 
 	// ---- HTLC
 	open := map[string]bool{}
